@@ -12,6 +12,7 @@ open Mahotas.Generated.Py Mahotas.C18
 
 section zoomshape
 variable {α : Type} [Add α] [Sub α] [Mul α] [Div α] [Neg α] [NatCast α] [LT α] [DecidableLT α]
+set_option linter.unusedSectionVars false
 
 /-- the primitives of the slice: the zoom argument is (is it a scalar, its entries) as in the model; `np.array(zoom)` keeps it,
     `.ndim` is 0 for a scalar and 1 for a sequence, `np.array([zoom] * n)` repeats the scalar, `int(x)` is truncation toward
@@ -41,9 +42,7 @@ theorem pybody_interpolate_zoom_output_shape_eq_model (ofInt : Int → α) (flit
       if (zoomFactors im.shape.length scalar zs).length ≠ im.shape.length then none
       else some (List.zipWith (zoomOutLen fl) im.shape (zoomFactors im.shape.length scalar zs)) := by
   unfold interpolate_zoom_output_shape zoomFactors
-  cases scalar
-  · simp [pybody_map_zip_zoomOutLen]
-  · simp [pybody_map_zip_zoomOutLen]
+  cases scalar <;> cases zs <;> simp [pybody_map_zip_zoomOutLen]
 
 /-- `C18.zoomOutShape` (the model the driver runs: length check, `int(s * z)` per axis, `np.empty` refusing a negative entry)
     in terms of the per-axis lengths -/
